@@ -66,6 +66,9 @@ fn isrs() -> Vec<(&'static str, Vec<u8>)> {
         ("counter", vec![0x10, 0xFF, CNT, 0x10, 0x44, 0xF0, 0x1F, CNT, 0x14, 0x2C]),
         // PUSH R0 ; PUSH R1 ; LD R0,7 ; LD R1,9 ; MUL R0,R1 ; CALL ISUB ; POP R1 ; POP R0 ; RETI ; ISUB: LD R0,(CNT) ; INC R0 ; ST (CNT),R0 ; RET
         ("mul+call", vec![0x10, 0x11, 0xFB, 0x07, 0x10, 0xFB, 0x09, 0x11, 0xB4, 0x28, 0x11, 0x15, 0x14, 0x2C, /*ISUB @0x11*/ 0x00]),
+        // re-entrant: counts, then enables interrupts again while it is still running
+        // PUSH R0 ; LD R0,(CNT) ; INC R0 ; ST (CNT),R0 ; EI ; NOP ; CLR R0 ; NOP ; POP R0 ; RETI
+        ("reentrant", vec![0x10, 0xFF, CNT, 0x10, 0x44, 0xF0, 0x1F, CNT, 0x08, 0x02, 0x04, 0x02, 0x14, 0x2C]),
     ]
 }
 
@@ -402,7 +405,9 @@ fn interrupted(p: &Prog, t0: &Trace0, triggers: &[u32]) -> Result<RunStats, (Str
                     dead[a as usize] = true;
                 }
                 let pre = Snap { cpu: Cpu { r: cpu.r, pc: ret, fr: fr_pushed, sp: cpu.sp.wrapping_add(2) } };
-                if !t0.snaps.contains(&pre) {
+                // a nested entry (the routine had enabled interrupts again) interrupts the routine, not the main program
+                let nested = ret >= 2 && ret < ISR_END;
+                if !nested && !t0.snaps.contains(&pre) {
                     return Err((
                         "entry/not-at-a-boundary-of-the-main-program".into(),
                         format!("at entry the stack holds return address {:#04x} / FR {:#04x} with R0-R2 {:02x?} SP {:#04x}: no boundary of the uninterrupted run has this state (previous boundary {:x?})", ret, fr_pushed, cpu.r, pre.cpu.sp, prev_boundary),
@@ -505,9 +510,12 @@ fn family(quick: bool) -> Vec<Prog> {
         if size > 40 {
             continue;
         }
-        for isr in 0..3 {
-            // quick: every ISR for bodies up to length 2; thorough: also length 3 with the ISR rotated
+        for isr in 0..4 {
+            // every ISR for bodies up to length 2 (the re-entrant one up to length 1); length 3 with the ISR rotated
             if !quick && s.len() == 3 && isr != si % 3 {
+                continue;
+            }
+            if isr == 3 && s.len() > 1 {
                 continue;
             }
             for init in 0..INITS.len() {
@@ -667,7 +675,7 @@ pub fn run() {
         let mut out = Out::default();
         for i in r {
             // pairs: on every 4th program in quick, on every program in thorough
-            let pairs = if quick { i % 4 == 0 } else { true };
+            let pairs = if quick { i % 4 == 0 || fam[i].isr == 3 } else { true };
             check_prog(i, &fam[i], pairs, &mut out);
         }
         out
